@@ -14,6 +14,7 @@ RULE = (
     "reference dump exactly (all logs, costs, time, status). The JSON variant (write_simple_json, read into a new "
     "BaseProject, resume there) is run at generated pause points in the quick tier and at every pause point in the "
     "thorough tier, on the model restricted to settings that are part of the saved format (probed at start-up by "
+    'One case in three runs with simulate(unit_time=2 or 3), so that pause times fall between step times. '
     "round-tripping a model with non-default settings). Thorough also pauses twice. Non-trivial = a pause strictly "
     "inside the run at which some task is WORKING and another still NONE; distinct by (spec hash)."
 )
@@ -47,6 +48,7 @@ def _case(draw, cfg, tier):
         "jk": draw(st.lists(st.integers(0, 30), unique=True, min_size=1, max_size=3)),
         "all_json": tier != "quick",
         "twice": draw(st.lists(st.integers(0, 30), min_size=2, max_size=2)) if tier != "quick" else None,
+        "unit_time": draw(st.sampled_from([1, 1, 1, 2, 3])),
     }
 
 
@@ -101,19 +103,23 @@ def check(case):
     spec = case["spec"]
     opts = spec["opts"]
     res.key = S.spec_hash(spec)
+    u = int(case.get("unit_time", 1))
+    ex = {"unit_time": u} if u != 1 else {}  # one step may cover several time units; pause times need not be step times
+    res.cls("unit_time_%d" % u, u != 1)
+    res.key += "u%d" % u
     href = S.build(spec)
-    S.simulate(href.project, opts)
+    S.simulate(href.project, opts, **ex)
     dref = S.dump(href.project)
     N = href.project.time
     res.cls("reference_failure_run", int(href.project.status) == -1)
     inside_nt = False
     for k in range(0, N + 1):
         h = S.build(spec)
-        S.simulate(h.project, dict(opts, max_time=k))
+        S.simulate(h.project, dict(opts, max_time=k), **ex)
         states = [int(t.state) for t in h.project.workflow.task_list]
         if 0 < k < N and S.WORKING in states and S.NONE in states:
             inside_nt = True
-        S.simulate(h.project, opts, **RESUME)
+        S.simulate(h.project, opts, **RESUME, **ex)
         d = S.dump(h.project)
         res.stats["pause_points_memory"] += 1
         if d != dref:
@@ -123,9 +129,9 @@ def check(case):
     if case.get("twice"):
         k1, k2 = sorted(x % (N + 1) for x in case["twice"])
         h = S.build(spec)
-        S.simulate(h.project, dict(opts, max_time=k1))
-        S.simulate(h.project, dict(opts, max_time=k2), **RESUME)
-        S.simulate(h.project, opts, **RESUME)
+        S.simulate(h.project, dict(opts, max_time=k1), **ex)
+        S.simulate(h.project, dict(opts, max_time=k2), **RESUME, **ex)
+        S.simulate(h.project, opts, **RESUME, **ex)
         res.stats["pause_twice"] += 1
         d = S.dump(h.project)
         if d != dref:
@@ -135,7 +141,7 @@ def check(case):
     if js != spec:
         res.cls("json_domain_restricted")
         hj = S.build(js)
-        S.simulate(hj.project, opts)
+        S.simulate(hj.project, opts, **ex)
         drefj = S.dump(hj.project)
         Nj = hj.project.time
     else:
@@ -143,9 +149,9 @@ def check(case):
     ks = range(0, Nj + 1) if case.get("all_json") else sorted(set(x % (Nj + 1) for x in case["jk"]))
     for k in ks:
         h = S.build(js)
-        S.simulate(h.project, dict(opts, max_time=k))
+        S.simulate(h.project, dict(opts, max_time=k), **ex)
         p2, _ = S.json_roundtrip(h.project)
-        S.simulate(p2, opts, **RESUME)
+        S.simulate(p2, opts, **RESUME, **ex)
         res.stats["pause_points_json"] += 1
         d = S.dump(p2)
         if d != drefj:
